@@ -7,6 +7,7 @@ import (
 	"os"
 	"runtime"
 	"runtime/debug"
+	"strings"
 
 	"golang.org/x/tools/go/ssa"
 )
@@ -223,6 +224,13 @@ func (fr *frame) exec(in ssa.Instruction) {
 	case *ssa.BinOp:
 		fr.env[in] = m.binop(in.Op, fr.get(in.X), fr.get(in.Y), in.Pos())
 	case *ssa.Call:
+		if m.inInit && fr.fn.Synthetic == "package initializer" {
+			// a package-level initialiser the engine cannot run (reflection, OS state) must not stop
+			// the initialisation of the package's other variables: the variable keeps its zero value
+			// and the skipped call is listed in the evidence
+			fr.env[in] = fr.initCall(in)
+			break
+		}
 		fr.env[in] = fr.doCall(in.Common(), in.Pos())
 	case *ssa.Defer:
 		cc := in.Common()
@@ -936,4 +944,23 @@ func gcdInt(a, b int) int {
 		a, b = b, a%b
 	}
 	return a
+}
+
+// initCall runs one call of a package initialiser; if it cannot be interpreted its result is the
+// zero value of its type.
+func (fr *frame) initCall(in *ssa.Call) (res value) {
+	m := fr.m
+	depth, stack := m.depth, m.stack
+	defer func() {
+		if r := recover(); r != nil {
+			a, ok := r.(abortPath)
+			if !ok || !(strings.HasPrefix(a.why, "unsupported") || strings.HasPrefix(a.why, "internal:")) {
+				panic(r)
+			}
+			m.depth, m.stack = depth, stack
+			m.st.fnSeen["note:initialiser call skipped in "+fr.fn.Pkg.Pkg.Path()+": "+in.Common().String()+" ("+a.why+")"] = true
+			res = zero(in.Type())
+		}
+	}()
+	return fr.doCall(in.Common(), in.Pos())
 }
